@@ -31,12 +31,18 @@ def input_set(name):
     if r is None:
         base, _, extra = name.partition('|')
         sigma, _, n = base.rpartition(':')
-        sigma = sigma.replace('\\n', '\n').replace('\\s', ' ')
+        sigma = sigma.replace('\\n', '\n').replace('\\s', ' ').replace('\\r', '\r').replace('\\f', '\x0c')
         r = strings(sigma, int(n))
         if extra:
             r = r + [x.replace('\\n', '\n').replace('\\s', ' ') for x in extra.split('+')]
         INPUT_SETS[name] = r
     return r
+
+
+def fresh(text):
+    if isinstance(text, str):
+        return ''.join(list(text))
+    return bytes(bytearray(text))
 
 
 def mk_specs(mods):
@@ -169,6 +175,9 @@ def _run_cases(job, specs, descs, mods, res, bump, mode, spans, bytes_mode, tag)
                     continue
                 nontrivial = counters.restores > before
                 for full in fulls:
+                    # every call gets a fresh text object that is dropped afterwards, so that
+                    # anything keyed on the identity of an earlier input becomes visible
+                    text = fresh(text)
                     out = impl.run(parse, text, pos, full, spans=spans, time_limit=limit)
                     if out['kind'] == 'DIVERGES':
                         # not believed until re-run alone with 10x the budget
